@@ -297,6 +297,11 @@ func (s *AbsfsNFS) SetAttr(node *NFSNode, attrs *NFSAttrs) error {
 
 	// Update attrs with lock protection
 	node.mu.Lock()
+	// SETATTR changes permission bits, owner and times only: keep the
+	// object's type bits, size and fileid, which the caller's attrs lack.
+	attrs.Mode = attrs.Mode&os.ModePerm | node.attrs.Mode&^os.ModePerm
+	attrs.Size = node.attrs.Size
+	attrs.FileId = node.attrs.FileId
 	node.attrs = attrs
 	node.attrs.Refresh() // Initialize cache validity
 	node.mu.Unlock()
